@@ -382,6 +382,8 @@ def call_outcome(world, c):
         return {'ok': canon(world.call(c))}
     except BaseException as e:  # noqa
         d = err_info(e)
+        if isinstance(e, RuntimeError) and 'changed size during iteration' in (d.get('msg') or ''):
+            d['dict_changed_size'] = True      # which RuntimeError it is (the message itself is never compared)
         d.pop('msg', None)           # messages may mention addresses; never compared
         d.pop('renders', None)
         return d
